@@ -483,22 +483,35 @@ func C13(c *core.Ctx) {
 		}
 		okSkip := true
 		nEdges := 0
-		for _, f := range core.EdgeFacts(fn, ign, le31, odd) {
-			pass := (f.A == ign && f.Holds) || (f.A == odd && !f.Holds)
-			if !pass {
+		isReject := func(in ssa.Instruction) bool {
+			for _, r := range rejects {
+				if r == in {
+					return true
+				}
+			}
+			return false
+		}
+		for _, f := range core.EdgeFacts(fn, ign) {
+			if !f.Holds {
 				continue
 			}
+			// from the start of the critical-type test (whatever the order of its operands):
+			// every path either rejects or skips l bytes
 			nEdges++
-			fr := core.MustFollowDeep(fn, core.Point{Block: f.E.To, Idx: 0}, isSkipL, nil)
+			fr := core.MustFollowDeep(fn, core.Point{Block: f.E.From, Idx: 0}, isSkipL, isReject)
 			if !fr.OK {
 				okSkip = false
 			}
-			core.Instrs(fn, func(in ssa.Instruction) {
-				if isSkipL(in) && in.Block() == f.E.To {
-					skipDefault = in
-				}
-			})
 		}
+		core.Instrs(fn, func(in ssa.Instruction) {
+			if isSkipL(in) && skipDefault == nil {
+				for _, f := range core.EdgeFacts(fn, ign) {
+					if f.Holds && (in.Block() == f.E.To || f.E.From.Dominates(in.Block())) {
+						skipDefault = in
+					}
+				}
+			}
+		})
 		c.Decide(okSkip && nEdges > 0, "R13.2", "unknown-element-skipped:"+mk, p.Pos(fn.Pos()), "an accepted unknown element is skipped with reader.Skip(int(l))", "an accepted unknown element is not skipped by its announced length: the bytes of its value are parsed as further elements")
 
 		// ---- R13.3 ordered progress invariant
@@ -506,44 +519,101 @@ func C13(c *core.Ctx) {
 			continue
 		}
 		nOrdered++
+		// the field cursor: a loop variable that is stepped by one per iteration and compared
+		// with field positions — as `progress+1 == i` (cursor = last position passed, starts
+		// at -1) or as `progress == i` (cursor = next position expected, starts at 0)
 		var P *ssa.Phi
+		delta := int64(-1)
+		mixed := false
+		isCursor := func(phi *ssa.Phi) bool {
+			for _, e := range phi.Edges {
+				if bo, ok := e.(*ssa.BinOp); ok && bo.Op == token.ADD {
+					if k, isC := core.ConstInt(bo.Y); isC && k == 1 {
+						return true
+					}
+				}
+			}
+			return false
+		}
 		core.Instrs(fn, func(in ssa.Instruction) {
-			b, ok := in.(*ssa.BinOp)
-			if !ok || b.Op != token.EQL {
+			bo, ok := in.(*ssa.BinOp)
+			if !ok || bo.Op != token.EQL {
 				return
 			}
-			add, ok := b.X.(*ssa.BinOp)
-			if !ok || add.Op != token.ADD {
+			if _, isC := core.ConstInt(bo.Y); !isC {
 				return
 			}
-			if k, isC := core.ConstInt(add.Y); !isC || k != 1 {
+			var phi *ssa.Phi
+			d := int64(0)
+			switch x := bo.X.(type) {
+			case *ssa.Phi:
+				phi = x
+			case *ssa.BinOp:
+				if k, isC := core.ConstInt(x.Y); x.Op == token.ADD && isC && k == 1 {
+					phi, _ = x.X.(*ssa.Phi)
+					d = 1
+				}
+			}
+			if phi == nil || !isCursor(phi) {
 				return
 			}
-			if phi, ok := add.X.(*ssa.Phi); ok {
-				P = phi
+			if P != nil && (P != phi || delta != d) {
+				mixed = true
 			}
+			P, delta = phi, d
 		})
 		key := "ordered-progress-invariant:" + mk
-		if P == nil || skipDefault == nil {
+		if P == nil || skipDefault == nil || mixed {
 			c.Und("R13.3", key, p.Pos(fn.Pos()), "cannot identify the field cursor (progress) or the unknown-element branch of the ordered parser")
 			continue
 		}
-		// R13.3b: the ordered loop runs while progress < number of fields of the definition
+		// R13.3b: the ordered loop runs while the position the cursor stands for (cursor +
+		// delta) is at most the number of fields, and the cursor starts at position 0
 		okBound := false
+		nf := int64(len(m.Fields))
 		core.Instrs(fn, func(in ssa.Instruction) {
-			b, ok := in.(*ssa.BinOp)
-			if !ok || b.Op != token.LSS || b.X != ssa.Value(P) {
+			bo, ok := in.(*ssa.BinOp)
+			if !ok || bo.X != ssa.Value(P) {
 				return
 			}
-			if k, isC := core.ConstInt(b.Y); isC && int(k) == len(m.Fields) {
-				for _, r := range core.Refs(b) {
+			k, isC := core.ConstInt(bo.Y)
+			if !isC {
+				return
+			}
+			if (bo.Op == token.LSS && k == nf+1-delta) || (bo.Op == token.LEQ && k == nf-delta) {
+				for _, r := range core.Refs(bo) {
 					if _, isIf := r.(*ssa.If); isIf {
 						okBound = true
 					}
 				}
 			}
 		})
-		c.Decide(okBound, "R13.3", "ordered-loop-bound:"+mk, p.Pos(fn.Pos()), fmt.Sprintf("the field loop runs while progress < %d (the number of fields)", len(m.Fields)), fmt.Sprintf("ordered parser of %s: the field loop is not bounded by progress < %d (number of fields of the definition): an element arriving at the last position is neither handled nor skipped", mk, len(m.Fields)))
+		// the initial value: follow the non-stepping edges of the header phis outwards
+		okInit := false
+		{
+			var v ssa.Value = P
+			for i := 0; i < 4; i++ {
+				phi, isPhi := v.(*ssa.Phi)
+				if !isPhi {
+					break
+				}
+				var next ssa.Value
+				for j, e := range phi.Edges {
+					if phi.Block().Dominates(phi.Block().Preds[j]) {
+						continue // a back edge
+					}
+					next = e
+				}
+				if next == nil {
+					break
+				}
+				v = next
+			}
+			if k, isC := core.ConstInt(v); isC && k == -delta {
+				okInit = true
+			}
+		}
+		c.Decide(okBound && okInit, "R13.3", "ordered-loop-bound:"+mk, p.Pos(fn.Pos()), fmt.Sprintf("the field loop starts at position 0 and runs while the cursor's position is at most %d (the number of fields)", len(m.Fields)), fmt.Sprintf("ordered parser of %s: the field loop does not cover positions 0..%d (number of fields of the definition; start ok=%v, bound ok=%v): an element arriving at the last position is neither handled nor skipped", mk, len(m.Fields), okInit, okBound))
 		// post-increment feeding the back edge of P
 		var X ssa.Value
 		for _, e := range P.Edges {
